@@ -3,7 +3,7 @@
    statements hold however the stream is cut into reads (in particular however
    much of the oversized body had arrived with its header). *)
 From MC Require Import Model.Base Model.Generated Model.Store Model.Codec Model.Handler Model.Conn Model.Run
-  Spec.Quiet Proofs.CodecLemmas Proofs.Framing Proofs.Chunking Proofs.PC10 Proofs.PConn.
+  Spec.Quiet Proofs.CodecLemmas Proofs.Framing Proofs.Chunking Proofs.PC10 Proofs.PConn Proofs.PGuards Model.RustInt.
 
 (* 'too large' (0x03), nothing stored or changed, opcode and opaque echoed *)
 Theorem C13_too_large_response : forall h s,
@@ -43,3 +43,13 @@ Example C13_nonvacuous :
   let '(cn, s, out) := feed_all [hdr ++ firstn 5 body; skipn 5 body ++ noop] (new_conn 8) (init_store None) [] in
   length out = 2%nat /\ cn_status cn = COpen /\ s_mem s = [] /\ cn_buf cn = [].
 Proof. vm_compute. repeat split. Qed.
+
+(* every comparison of the announced body length with the item size limit in the
+   codec's source (translated on every run, tools/rsexpr.py) is the model's
+   [limit <? body_length], and the request path has one (decode, site 3, or
+   parse_request, site 2) *)
+Theorem C13_size_guards_are_source : src_size_guards_ok = true ->
+  (In 2 src_size_guard_sites \/ In 3 src_size_guard_sites) /\
+  Forall (fun g => forall body limit, g body limit = Some (limit <? body)) src_size_guards.
+Proof. exact size_guards_are_source. Qed.
+Print Assumptions C13_size_guards_are_source.
